@@ -1,12 +1,100 @@
 /-
 Driver commands of property C02 (core Lean only).  Command names start with "c02.".
+
+  c02.run <blocks> <ops>
+     blocks = `len:csize:seed` joined by ','   (payload byte j of a block = (seed + j + (j/256)*13) % 256)
+              or `x<hex>:csize` for an explicit payload
+     ops    = joined by ',':  r<n> (Read of n bytes) | b (ReadByte) | s<file>.<block> (Seek) | B1 | B0 (Blocked)
+     answer = per op `n:class:bf.bb:ef.eb:blocklen:hash` joined by ';'
+              (class = ok | eof | err; hash = fold (h*31+b) % 65521 from 7 over the bytes returned)
+  c02.flat <blocks> <ops>   the same history through the flat specification (Hts.Spec.Flat)
 -/
 import Hts.Drv.Util
+import Hts.Model.BgzfReader
 namespace Hts.Drv.C02
-open Hts.Drv
+open Hts.Drv Hts.Model.Bgzf Hts.Spec.Flat
+
+def genData (seed len : Nat) : List UInt8 :=
+  (List.range len).map fun j => UInt8.ofNat ((seed + j + (j / 256) * 13) % 256)
+
+def parseMember (s : String) : Option Member :=
+  match s.splitOn ":" with
+  | [l, c, sd] => do
+    let l ← parseNat l
+    let c ← parseNat c
+    let sd ← parseNat sd
+    some ⟨genData sd l, c⟩
+  | [h, c] =>
+    if h.startsWith "x" then do
+      let bs ← parseHex (h.drop 1).toString
+      let c ← parseNat c
+      some ⟨bs.map UInt8.ofNat, c⟩
+    else none
+  | _ => none
+
+def parseFile (s : String) : Option File :=
+  if s == "-" then some [] else (s.splitOn ",").mapM parseMember
+
+def parseOffset (s : String) : Option Offset :=
+  match s.splitOn "." with
+  | [f, b] => do some ⟨← parseNat f, ← parseNat b⟩
+  | _ => none
+
+def parseOp (s : String) : Option Op :=
+  if s == "b" then some .readByte
+  else if s == "B1" then some (.setBlocked true)
+  else if s == "B0" then some (.setBlocked false)
+  else if s.startsWith "r" then (parseNat (s.drop 1).toString).map .read
+  else if s.startsWith "s" then (parseOffset (s.drop 1).toString).map .seek
+  else none
+
+def parseOps (s : String) : Option (List Op) :=
+  if s == "-" then some [] else (s.splitOn ",").mapM parseOp
+
+def hashBytes (bs : List UInt8) : Nat :=
+  bs.foldl (fun h b => (h * 31 + b.toNat) % 65521) 7
+
+def errClass : Option Err → String
+  | none => "ok"
+  | some .eof => "eof"
+  | some .unexpectedEOF => "ueof"
+  | some .other => "err"
+  | some .fuel => "MODEL-FUEL"
+  | some .short => "MODEL-SHORT"
+  | some .panic => "panic"
+
+def showOff (o : Offset) : String := s!"{o.file}.{o.block}"
+
+def showRes (bs : List UInt8) (e : Option Err) (last : Chunk) (blen : Nat) : String :=
+  s!"{bs.length}:{errClass e}:{showOff last.bgn}:{showOff last.fin}:{blen}:{hashBytes bs}"
+
+def runModel (f : File) (ops : List Op) : String :=
+  match Reader.new f with
+  | .error e => "new:" ++ errClass (some e)
+  | .ok r =>
+    ";".intercalate ((r.run ops).map fun (o, r') => showRes o.bytes o.err r'.lastChunk r'.blockLen)
+
+/-- The same history through the flat specification (`Hts.Spec.Flat.run`); BlockLen is not part of it. -/
+def showObs (o : Obs) : String :=
+  s!"{o.bytes.length}:{if o.eof then "eof" else "ok"}:{showOff o.last.bgn}:{showOff o.last.fin}:{hashBytes o.bytes}"
+
+def validOps (L : Layout) : List Op → Bool
+  | [] => true
+  | .seek o :: ops => (seekTarget L o).isSome && validOps L ops
+  | _ :: ops => validOps L ops
 
 def handle (cmd : String) (args : List String) : Option String :=
   match cmd, args with
+  | "c02.run", [blocks, ops] => do
+    let f ← parseFile blocks
+    let ops ← parseOps ops
+    some (runModel f ops)
+  | "c02.flat", [blocks, ops] => do
+    let f ← parseFile blocks
+    let ops ← parseOps ops
+    if validOps (layoutOf f) ops then
+      some (";".intercalate ((Hts.Spec.Flat.run (flatOf f) init ops).map showObs))
+    else some "invalid-history"
   | _, _ => none
 
 end Hts.Drv.C02
